@@ -247,7 +247,15 @@ class AbstractStrategy(
     def __eq__(self, other: object) -> bool:
         if not isinstance(other, AbstractStrategy):
             return NotImplemented
-        return self.__class__ == other.__class__ and self.__dict__ == other.__dict__
+        if self.__class__ != other.__class__:
+            return False
+        # Instances created through a subscripted generic alias, e.g.
+        # EmptyStrategy[A, B](), carry an `__orig_class__` entry in their dict.
+        # It says how the instance was created, not what the strategy is.
+        ignored = ("__orig_class__",)
+        return {k: v for k, v in self.__dict__.items() if k not in ignored} == {
+            k: v for k, v in other.__dict__.items() if k not in ignored
+        }
 
     def __repr__(self):
         return (
